@@ -407,39 +407,39 @@ package internals
 //@ func LenMin(n)
 //@   pure
 //@   ensures[C17,C20,C11] code_and_param: blanktest(result0, "min") && oneparam(result0, "min", box(n)) && isnew(result0.Params)
-//@   ensures[C17,C20] predicate_over_given_parameter: result1 != nil && isclo(result1, "internals.LenMin$1") && *captured(result1, "internals.LenMin$1", 0) == n
+//@   ensures[C17,C20] predicate_over_given_parameter: result1 != nil && isclo(result1, "internals.LenMin$1") && *captured(result1, "internals.LenMin$1", 0) == n && clotarg(result1, 0) == tid(T)
 //@ func LenMax(n)
 //@   pure
 //@   ensures[C17,C20,C11] code_and_param: blanktest(result0, "max") && oneparam(result0, "max", box(n)) && isnew(result0.Params)
-//@   ensures[C17,C20] predicate_over_given_parameter: result1 != nil && isclo(result1, "internals.LenMax$1") && *captured(result1, "internals.LenMax$1", 0) == n
+//@   ensures[C17,C20] predicate_over_given_parameter: result1 != nil && isclo(result1, "internals.LenMax$1") && *captured(result1, "internals.LenMax$1", 0) == n && clotarg(result1, 0) == tid(T)
 //@ func Len(n)
 //@   pure
 //@   ensures[C17,C20,C11] code_and_param: blanktest(result0, "len") && oneparam(result0, "len", box(n)) && isnew(result0.Params)
-//@   ensures[C17,C20] predicate_over_given_parameter: result1 != nil && isclo(result1, "internals.Len$1") && *captured(result1, "internals.Len$1", 0) == n
+//@   ensures[C17,C20] predicate_over_given_parameter: result1 != nil && isclo(result1, "internals.Len$1") && *captured(result1, "internals.Len$1", 0) == n && clotarg(result1, 0) == tid(T)
 //@ func EQ(n)
 //@   pure
 //@   ensures[C17,C20,C11] code_and_param: blanktest(result0, "eq") && oneparam(result0, "eq", box(n)) && isnew(result0.Params)
-//@   ensures[C17,C20] predicate_over_given_parameter: result1 != nil && isclo(result1, "internals.EQ$1") && *captured(result1, "internals.EQ$1", 0) == n
+//@   ensures[C17,C20] predicate_over_given_parameter: result1 != nil && isclo(result1, "internals.EQ$1") && *captured(result1, "internals.EQ$1", 0) == n && clotarg(result1, 0) == tid(T)
 //@ func LTE(n)
 //@   pure
 //@   ensures[C17,C20,C11] code_and_param: blanktest(result0, "lte") && oneparam(result0, "lte", box(n)) && isnew(result0.Params)
-//@   ensures[C17,C20] predicate_over_given_parameter: result1 != nil && isclo(result1, "internals.LTE$1") && *captured(result1, "internals.LTE$1", 0) == n
+//@   ensures[C17,C20] predicate_over_given_parameter: result1 != nil && isclo(result1, "internals.LTE$1") && *captured(result1, "internals.LTE$1", 0) == n && clotarg(result1, 0) == tid(T)
 //@ func GTE(n)
 //@   pure
 //@   ensures[C17,C20,C11] code_and_param: blanktest(result0, "gte") && oneparam(result0, "gte", box(n)) && isnew(result0.Params)
-//@   ensures[C17,C20] predicate_over_given_parameter: result1 != nil && isclo(result1, "internals.GTE$1") && *captured(result1, "internals.GTE$1", 0) == n
+//@   ensures[C17,C20] predicate_over_given_parameter: result1 != nil && isclo(result1, "internals.GTE$1") && *captured(result1, "internals.GTE$1", 0) == n && clotarg(result1, 0) == tid(T)
 //@ func LT(n)
 //@   pure
 //@   ensures[C17,C20,C11] code_and_param: blanktest(result0, "lt") && oneparam(result0, "lt", box(n)) && isnew(result0.Params)
-//@   ensures[C17,C20] predicate_over_given_parameter: result1 != nil && isclo(result1, "internals.LT$1") && *captured(result1, "internals.LT$1", 0) == n
+//@   ensures[C17,C20] predicate_over_given_parameter: result1 != nil && isclo(result1, "internals.LT$1") && *captured(result1, "internals.LT$1", 0) == n && clotarg(result1, 0) == tid(T)
 //@ func GT(n)
 //@   pure
 //@   ensures[C17,C20,C11] code_and_param: blanktest(result0, "gt") && oneparam(result0, "gt", box(n)) && isnew(result0.Params)
-//@   ensures[C17,C20] predicate_over_given_parameter: result1 != nil && isclo(result1, "internals.GT$1") && *captured(result1, "internals.GT$1", 0) == n
+//@   ensures[C17,C20] predicate_over_given_parameter: result1 != nil && isclo(result1, "internals.GT$1") && *captured(result1, "internals.GT$1", 0) == n && clotarg(result1, 0) == tid(T)
 //@ func In(values)
 //@   pure
 //@   ensures[C17,C20,C11] code_and_param: blanktest(result0, "one_of_options") && oneparam(result0, "one_of_options", box(values)) && isnew(result0.Params)
-//@   ensures[C17,C20] predicate_over_given_parameter: result1 != nil && isclo(result1, "internals.In$1") && *captured(result1, "internals.In$1", 0) == values
+//@   ensures[C17,C20] predicate_over_given_parameter: result1 != nil && isclo(result1, "internals.In$1") && *captured(result1, "internals.In$1", 0) == values && clotarg(result1, 0) == tid(T)
 //@ func Required()
 //@   pure
 //@   ensures[C17,C04] required_marker: blanktest(result, "required") && result.Params == nil
